@@ -458,14 +458,17 @@ def st_model_case(draw):
             "explicit_format": draw(st.booleans()), "cycles": draw(st.integers(1, 3)), "nspin": draw(st.sampled_from([1, 2])),
             # ns = 2 is left out: with nspin = 1 MappedDFTKernel.apply_descriptor_grad mistakes a 2-sample batch for a
             # polarised array (ValueError in SEP mode; reported separately, it is C04/C09's domain, not serialisation)
-            "ns": draw(st.sampled_from([1, 3, 4, 5])), "seed": draw(st.integers(0, 2 ** 31 - 1))}
+            "ns": draw(st.sampled_from([1, 3, 4, 5])), "seed": draw(st.integers(0, 2 ** 31 - 1)),
+            # a third of the cases: another model has been saved to and loaded from the same path before
+            "prior": draw(st_model()) if draw(st.sampled_from(range(3))) == 0 else None}
 
 
 @subcheck("C14", "model_roundtrip", st_model_case, quick=800, thorough=5000,
           rule="complete MappedXC (native baselines) / MappedXC2 (libxc baselines incl. SS_/OS_) models: FeatureSettings "
                "from G-settings with default/recommended/drawn normalisers, 1-2 kernels of 1-7 drawn maps (all classes) and "
                "1-3 evaluators from {RBF, Kernel, GlobalLinear, SplineSet}, mode SEP/NPOL; saved with yaml.dump or "
-               "joblib.dump and loaded with load_cider_model(path, None | explicit format), 1-3 cycles; oracle: same "
+               "joblib.dump and loaded with load_cider_model(path, None | explicit format), 1-3 cycles, in a third of the cases after another "
+               "model was saved to and loaded from the same path; oracle: same "
                "type, model evaluation (energy, feature derivatives, rhocut 0 and 0.05 / libxc potentials) bit-identical, "
                "settings bookkeeping (nfeat, usps, ueg_vector) identical, yaml re-dump of a reloaded model byte-identical "
                "(3-cycle cases); "
@@ -498,6 +501,17 @@ def model_roundtrip(case, ctx):
     with TmpDir() as tmp:
         for c in range(case["cycles"]):
             p = os.path.join(tmp, "model_%d.%s" % (c, case["fmt"]))
+            if case.get("prior") is not None and c == 0:
+                # the file name was used before for a different model (retrained model written over the old file):
+                # what is loaded is what the file holds now
+                ctx.event("path_reused_for_another_model")
+                prior = build_model(case["prior"])
+                if case["fmt"] == "yaml":
+                    with open(p, "w") as f:
+                        yaml.dump(prior, f)
+                else:
+                    joblib.dump(prior, p)
+                load_cider_model(p, case["fmt"] if case["explicit_format"] else None)
             if case["fmt"] == "yaml":
                 with open(p, "w") as f:
                     yaml.dump(cur, f)
